@@ -28,11 +28,47 @@ def use_repo() -> str:
     return src
 
 
+_LOG_SINK = None
+
+
 def quiet_logs() -> None:
-    """Silence nauyaca's structlog / logging output (the harness records its own events)."""
+    """Silence nauyaca's structlog / logging output (the harness records its own events).
+
+    VF_LOG_MODE=debug-json | debug-console | info-json instead configures logging the way production does
+    (nauyaca.utils.logging.configure_logging, hashed client addresses, output to a scratch file), so that the
+    log calls of the code under test run through their real processors and renderers."""
     import logging
 
     import structlog
+
+    mode = os.environ.get("VF_LOG_MODE", "")
+    if mode in ("debug-json", "debug-console", "info-json"):
+        import tempfile
+        from pathlib import Path
+
+        from nauyaca.utils.logging import configure_logging
+
+        global _LOG_SINK
+        if _LOG_SINK is None:
+            import atexit
+
+            _LOG_SINK = os.path.join(tempfile.gettempdir(), f"vf-logs-{os.getpid()}.log")
+            atexit.register(lambda pth=_LOG_SINK: os.path.exists(pth) and os.unlink(pth))
+        logging.disable(logging.NOTSET)
+        if mode.startswith("debug"):
+            # code that asks the standard logging module whether DEBUG is on gets a yes as well
+            root = logging.getLogger()
+            root.setLevel(logging.DEBUG)
+            if not root.handlers:
+                root.addHandler(logging.NullHandler())
+        configure_logging(log_level="DEBUG" if mode.startswith("debug") else "INFO", log_file=Path(_LOG_SINK), json_logs=mode.endswith("json"), hash_ips=True)
+        # (do not let the sink grow without bound)
+        try:
+            if os.path.getsize(_LOG_SINK) > 50_000_000:
+                open(_LOG_SINK, "w").close()
+        except OSError:
+            pass
+        return
 
     logging.disable(logging.CRITICAL)
     structlog.configure(
